@@ -51,7 +51,8 @@ def owner(what, cfg, calls=0):
 def gid_of(vec):
     if vec.get("id"):
         return str(vec["id"])
-    return hashlib.sha1(json.dumps(vec["rules"], sort_keys=True).encode()).hexdigest()[:12]
+    key = vec["rules"] if not ("terms" in vec and isinstance(vec["terms"], list) and (not vec["terms"] or isinstance(vec["terms"][0], dict))) else [vec["terms"], vec["rules"]]
+    return hashlib.sha1(json.dumps(key, sort_keys=True).encode()).hexdigest()[:12]
 
 
 def mcgram_cfg(terms, nts, maxrules, maxrhs, maxlen, useerr, variants, trees, invariants=("Emit",), recov=0):
@@ -78,7 +79,7 @@ def blocks_from_vector(vec, configs, codemap="ascii", define_only=False, mems=(0
     code = CODEMAPS[codemap]
     g = gid_of(vec)
     lines = ["G " + g]
-    if vec.get("terms") and isinstance(vec["terms"][0], dict):
+    if "terms" in vec and isinstance(vec["terms"], list) and (not vec["terms"] or isinstance(vec["terms"][0], dict)):
         terms = [t["n"] for t in vec["terms"]]
         tokcode = {t["n"]: (code(t["c"]) if t["c"] > 0 else t["c"]) for t in vec["terms"]}
         for t in vec["terms"]:
@@ -161,11 +162,29 @@ def nontrivial_grammar(vec):
     return False
 
 
+def mcdef_cfg(names, codes, maxterms, lhs, rhs, maxrhs, maxrules, variants):
+    """Configuration of MCDef.tla; negative numbers cannot be written in a cfg file, so the sets are passed as definitions
+    of a generated module-level operator: see MCDEF_SETS."""
+    return """SPECIFICATION SpecM
+CONSTANTS
+  TermNamesM <- %s
+  TermCodesM <- %s
+  MaxTerms = %d
+  LhsM <- %s
+  RhsM <- %s
+  MaxRhs = %d
+  MaxRules = %d
+  VariantsM = {%s}
+INVARIANTS EmitM
+CHECK_DEADLOCK FALSE
+""" % (names, codes, maxterms, lhs, rhs, maxrhs, maxrules, ",".join(map(str, variants)))
+
+
 def run_family(res, scratch, tag, cfg_text, make_blocks, libs=("c",), builds=None, timeout=1500, tlc_workers=None,
-               sample_every=None, mine=None, harness_args=()):
+               sample_every=None, mine=None, harness_args=(), module="MCGram"):
     """TLC run + replay.  make_blocks(vec) -> list of lines or None.  mine(record) -> key or None tells whether a
     mismatch belongs to the property being checked."""
-    t = run_tlc(scratch, "MCGram", cfg_text, tag, timeout=timeout, workers=tlc_workers)
+    t = run_tlc(scratch, module, cfg_text, tag, timeout=timeout, workers=tlc_workers)
     if t["status"] == "violation":
         res.violation("spec-invariant:" + tag, {"tlc_tail": t["tail"][-2500:]})
     elif t["status"] != "ok":
@@ -191,7 +210,7 @@ def run_family(res, scratch, tag, cfg_text, make_blocks, libs=("c",), builds=Non
     res.notes.setdefault("families", []).append({"tag": tag, "vectors": nvec, "replayed_grammars": nacc,
                                                  "tlc_distinct_states": t["distinct"], "tlc_wall_s": round(t["wall"], 1)})
     res.cov["distinct_nontrivial"] += nnt
-    if t["distinct"] and nvec < t["distinct"] - 1:
+    if module == "MCGram" and t["distinct"] and nvec < t["distinct"] - 1:
         raise Infra("TLC printed %d vectors for %d states (%s)" % (nvec, t["distinct"], tag))
     for lib in libs:
         for bdir in builds:
